@@ -1,236 +1,5 @@
-//! Correspondence harness for the index model: real `Index` on a mock node vs the Lean model.
-use {
-  common::*,
-  std::{path::Path, time::Duration},
-};
-
-mod chaingen;
-mod emit;
-mod env;
-
-use env::{Flags, Node, UpdateOutcome};
-
-fn cfg_line(flags: Flags, chain: &str) -> String {
-  let (first_ins, jubilee, first_rune) = match chain {
-    "regtest" => (0, 110, 0),
-    "testnet4" => (0, 0, 0),
-    "signet" => (112402, 175392, 0),
-    _ => panic!("chain parameters not tabulated for {chain}"),
-  };
-  format!(
-    "cfg sats={} addr={} tx={} ins={} runes={} first_ins={first_ins} jubilee={jubilee} first_rune={first_rune}",
-    flags.sats as u8, flags.addr as u8, flags.tx as u8, flags.ins as u8, flags.runes as u8
-  )
-}
-
-fn dump_sections(out: &mut Streams, ix: &env::Ix, flags: Flags) {
-  let rows = ix.index.verif_dump().unwrap();
-  let secs = env::sections(&rows);
-  let mut names = vec!["chain", "stats"];
-  if flags.sats || flags.addr || flags.ins {
-    names.push("utxo");
-  }
-  if flags.sats {
-    names.push("sat2satpoint");
-  }
-  if flags.ins {
-    names.push("ins");
-    names.push("tx");
-  }
-  if flags.addr {
-    names.push("addr");
-  }
-  if flags.runes {
-    names.push("runes");
-  }
-  for n in names {
-    out.emit(&format!("dump {n}"), &secs[n]);
-  }
-}
-
-/// what the generated chain actually exercised, measured on the implementation's final state
-fn outcome_dist(ix: &env::Ix, dist: &mut Dist) {
-  const CHARMS: [&str; 14] = [
-    "coin", "cursed", "epic", "legendary", "lost", "nineball", "rare", "reinscription", "unbound", "uncommon",
-    "vindicated", "mythic", "burned", "palindrome",
-  ];
-  let field = |row: &str, key: &str| -> Option<String> {
-    row.split(' ').find_map(|t| t.strip_prefix(key).map(|v| v.to_string()))
-  };
-  for row in ix.index.verif_dump().unwrap() {
-    let head = row.split(' ').next().unwrap().to_string();
-    match head.as_str() {
-      "entry" => {
-        dist.hit("got_inscription");
-        let charms: u32 = field(&row, "charms=").unwrap().parse().unwrap();
-        for (i, name) in CHARMS.iter().enumerate() {
-          if charms & (1 << i) != 0 {
-            dist.hit(&format!("got_charm_{name}"));
-          }
-        }
-        if field(&row, "number=").unwrap().starts_with('-') {
-          dist.hit("got_negative_number");
-        }
-        if field(&row, "parents=").unwrap() != "-" {
-          dist.hit("got_child");
-        }
-        if field(&row, "fee=").unwrap() != "0" {
-          dist.hit("got_fee");
-        }
-      }
-      "rune" => {
-        dist.hit("got_rune");
-        if field(&row, "mints=").unwrap() != "0" {
-          dist.hit("got_rune_minted");
-        }
-        if field(&row, "burned=").unwrap() != "0" {
-          dist.hit("got_rune_burned");
-        }
-        if field(&row, "premine=").unwrap() != "0" {
-          dist.hit("got_rune_premine");
-        }
-        let rune: u128 = field(&row, "rune=").unwrap().parse().unwrap();
-        if rune >= 6402364363415443603228541259936211926 {
-          dist.hit("got_rune_reserved_name");
-        } else {
-          dist.hit("got_rune_named");
-        }
-      }
-      "balances" => dist.hit("got_balance_row"),
-      "sat2satpoint" => dist.hit("got_rare_sat_row"),
-      "children" => dist.hit("got_children_row"),
-      "seq2runeid" => dist.hit("got_seq2runeid"),
-      "utxo" => {
-        if row.contains("ffffffff") || row.starts_with("utxo 0000000000000000000000000000000000000000000000000000000000000000:") {
-          dist.hit("got_special_outpoint_row");
-        }
-        if let Some(ins) = field(&row, "ins=") {
-          if ins.contains(',') {
-            dist.hit("got_utxo_multi_inscription");
-          }
-        }
-      }
-      _ => {}
-    }
-  }
-}
-
-fn drain_events(ix: &mut env::Ix) -> String {
-  let mut evs = Vec::new();
-  if let Some(rx) = ix.events.as_mut() {
-    while let Ok(e) = rx.try_recv() {
-      evs.push(env::render_event(&e));
-    }
-  }
-  env::canon_events(evs)
-}
-
-/// one generated chain, indexed block by block by the real indexer, with the model following
-fn chain_case(args: &Args, rng: &mut Rng, out: &mut Streams, dist: &mut Dist, scratch: &Path, case: u64) {
-  let chain = if rng.chance(1, 4) { "testnet4" } else { "regtest" };
-  let flags = match rng.below(6) {
-    0..=2 => Flags::all(),
-    _ => {
-      let mut f = Flags::from_bits(rng.below(32) as u32);
-      if !f.sats && !f.addr && !f.ins && !f.runes {
-        f.ins = true;
-      }
-      f
-    }
-  };
-  let node = Node::new(chain, scratch);
-  let mut ix = env::open(&node, scratch, flags, &[], true);
-  let mut g = chaingen::Gen::new(rng.fork(), node.core.state().network);
-  g.malformed = rng.chance(1, 3);
-  let blocks = args.get("blocks").map(|v| v.parse().unwrap()).unwrap_or(14u64);
-  let nblocks = 2 + rng.below(blocks);
-  // regtest jubilee is at 110: a third of the regtest chains start with ~105 empty blocks
-  let premine = if chain == "regtest" && rng.chance(1, 3) { 100 + rng.below(9) } else if rng.chance(1, 2) { 6 + rng.below(3) } else { 0 };
-  out.emit(&cfg_line(flags, chain), "ok");
-  let genesis = node.block_at(0);
-  g.absorb(&genesis, 0);
-  emit::emit_block(out, 0, &genesis, g.network, &g.txs);
-  let mut next_emit = 1u32;
-  let saved_max = g.max_txs;
-  for b in 0..(premine + nblocks) {
-    g.max_txs = if b < premine { 0 } else { saved_max };
-    let block = g.block(&node, dist);
-    node.push_block(block);
-    if b < premine && b + 1 != premine {
-      continue; // index the empty prefix in one go
-    }
-    match env::update(&ix, Duration::from_secs(120)) {
-      UpdateOutcome::Ok => {}
-      UpdateOutcome::Err(e) => {
-        out.emit("endblock", &format!("err {e}"));
-        dist.hit("impl_err");
-        return;
-      }
-      UpdateOutcome::Panic(p) => {
-        out.emit("endblock", &format!("panic {p}"));
-        dist.hit("impl_panic");
-        return;
-      }
-      UpdateOutcome::Hang => {
-        out.emit("endblock", "hang");
-        dist.hit("impl_hang");
-        return;
-      }
-    }
-    // describe every block the indexer just consumed
-    while next_emit <= node.height() {
-      if next_emit > 1 || true {
-        // block 0's endblock comes with the first update
-      }
-      if next_emit == 1 {
-        out.emit("endblock", "ok");
-      }
-      let blk = node.block_at(next_emit);
-      emit::emit_block(out, next_emit, &blk, g.network, &g.txs);
-      out.emit("endblock", "ok");
-      next_emit += 1;
-    }
-    // feed the generator the runes that really exist, so mints/edicts mostly name live runes
-    if flags.runes {
-      let runes = ix.index.runes().unwrap();
-      g.rune_ids = runes.iter().map(|(id, _)| *id).collect();
-      g.rune_names = runes.iter().map(|(_, e)| e.spaced_rune.rune.0).collect();
-    }
-    let evs = drain_events(&mut ix);
-    if b >= premine {
-      out.emit("events", &evs);
-    }
-    dump_sections(out, &ix, flags);
-    // C16 oracle: indexing a valid chain never fails (evaluated on the implementation)
-    out.emit(&format!("index.oracle.nofail {case} {}", node.height()), "true");
-  }
-  outcome_dist(&ix, dist);
-  dist.hit(&format!("chain_{chain}"));
-  dist.hit(&format!("flags_{}{}{}{}{}", flags.sats as u8, flags.addr as u8, flags.tx as u8, flags.ins as u8, flags.runes as u8));
-}
-
+//! Base index correspondence engine: the `chain` stream with no property-specific probe.
 fn main() {
-  let args = Args::parse();
-  let mut out = Streams::create(&args.out);
-  let mut dist = Dist::default();
-  let mut rng = Rng::new(args.seed);
-  let scratch = args.out.join("scratch");
-  std::fs::create_dir_all(&scratch).unwrap();
-  if args.replay.is_some() {
-    // chains are replayed by seed/case, not from request lines: the request lines embed the
-    // implementation's parsed inputs; re-running the same seed regenerates them
-    eprintln!("replay of index streams is by VERIF_SEED (the ops file is for reading)");
-  }
-  match args.stream.as_str() {
-    "chain" => {
-      for case in 0..args.cases {
-        let mut r = rng.fork();
-        chain_case(&args, &mut r, &mut out, &mut dist, &scratch, case);
-      }
-    }
-    s => panic!("unknown stream {s}"),
-  }
-  let _ = std::fs::remove_dir_all(&scratch);
-  dist.write(&args.out);
-  out.finish();
+  let args = common::Args::parse();
+  ixlib::run(&args, &mut |_ctx, _rng, _out, _dist| {});
 }
